@@ -437,6 +437,14 @@ func (c *Candidates) PunishByzantineCandidate(height uint64, tmAddress types.TmA
 	candidate := c.GetCandidateByTendermintAddress(tmAddress)
 	stakes := c.GetStakes(candidate.PubKey)
 
+	// delegations and rewards waiting for the next recalculation are bonded to this validator as well:
+	// left alone they would become untouched stakes at the validator update of this very block and
+	// could keep the validator in the set
+	candidate.lock.RLock()
+	stakes = append(stakes, candidate.updates...)
+	candidate.lock.RUnlock()
+	defer candidate.clearUpdates()
+
 	for _, stake := range stakes {
 		newValue := big.NewInt(0).Set(stake.Value)
 		newValue.Mul(newValue, big.NewInt(95))
